@@ -635,7 +635,7 @@ Write(Index i, Value v) {
 template <typename Params>
 NLWriter2<Params>::ExprArgWriter::
 ExprArgWriter(NLWriter2& nlw, int na)
-  : nlw_(nlw), nargs_(na) { assert(nargs_>0); }
+  : nlw_(nlw), nargs_(na) { assert(nargs_>=0); }
 
 template <typename Params>
 NLWriter2<Params>::ExprArgWriter::
